@@ -17,6 +17,8 @@ def wide_fault_ops(alpha, tier):
         F.append(("bad_insert_multiple", ("P0", "P1"), pos, "int", "db"))
     F.append(("bad_insert_multiple", ("P1", "P4"), 1, "str", "db"))      # out-of-order prefix
     F.append(("bad_insert_multiple", ("P2", "P0"), 1, "None", "h:n"))
+    F.append(("bad_insert_multiple", ("P0", "P1"), 1, "genraise", "db"))  # the iterable itself raises (not a TypeError)
+    F.append(("bad_insert_multiple", ("P1", "P3"), 2, "genraise", "db"))
     for attr, pre in (("time", None), ("measurement", None), ("tags", None), ("fields", None), ("tags", "time"),
                       ("fields", "tags"), ("fields", "measurement"), ("measurement", "time")):
         for nth in (1, 2, 3):
